@@ -245,6 +245,26 @@ impl<'tcx> Cx<'tcx> {
     fn body(&self, did: DefId) -> String {
         let tcx = self.tcx;
         let body = tcx.optimized_mir(did);
+        let mut s = self.body_of(did, body);
+        s.push_str(",\"promoted\":[");
+        if let Some(ldid) = did.as_local() {
+            let _ = ldid;
+            let proms = tcx.promoted_mir(did);
+            for (i, pb) in proms.iter().enumerate() {
+                if i > 0 {
+                    s.push(',');
+                }
+                s.push('{');
+                s.push_str(&self.body_of(did, pb));
+                s.push('}');
+            }
+        }
+        s.push(']');
+        s
+    }
+
+    fn body_of(&self, did: DefId, body: &Body<'tcx>) -> String {
+        let tcx = self.tcx;
         let mut s = String::new();
         let _ = write!(s, "\"arg_count\":{},\"locals\":[", body.arg_count);
         let mut names: Vec<Option<String>> = vec![None; body.local_decls.len()];
